@@ -8,7 +8,8 @@ REQUIRED = ["CifModel.C08_firstChar_link", "CifModel.C08_fold_prefix", "CifModel
             "CifModel.C08_buffer_init", "CifModel.C08_ws_lengthening", "CifModel.C08_ws_lengthening_insert",
             "CifModel.C08_ws_lengthening_any_chunking",
             "CifModel.C08_bufscan_refines_lexer", "CifModel.C08_bufscan_refines_lexer_tree",
-            "CifModel.C08_bufscan_boundaries_irrelevant", "CifModel.C08_bufscan_style_independent", "CifModel.C08_bufscan_refill"]
+            "CifModel.C08_bufscan_boundaries_irrelevant", "CifModel.C08_bufscan_style_independent", "CifModel.C08_bufscan_refill",
+            "CifModel.C08_bufscan_offsets_ordered"]
 GEN = ["ParseConsts"]
 FAMILIES = ["fills", "align", "bufscan"]
 TRUSTED_BASE = [
@@ -63,7 +64,8 @@ LEVEL_TEXT = ("Proof for terminator folding and chunking: Lean theorems over ALL
               "chunking, every initial buffer size >= 2 and every policy, exactly the tokens (type, text, line, column), return value "
               "and reports of the list-level lexer model on normalizeEOL(input) (C08_bufscan_refines_lexer, by one simulation lemma "
               "per scan function over the loop iterations; corollaries C08_bufscan_boundaries_irrelevant, "
-              "C08_bufscan_style_independent); replacing a separator by "
+              "C08_bufscan_style_independent; C08_bufscan_offsets_ordered: at every token text_start <= tvalue_start, "
+              "tvalue_start + tvalue_length <= next_char <= buffer_limit <= buffer_size); replacing a separator by "
               "any other whitespace/comment run leaves the whole following token stream unchanged up to the line shift "
               "(C08_ws_lengthening, on gD's C01_lex_sep plus the line-shift invariance of the lexer model proved here).")
 LEVEL_NOTE = ("Partial in the respects named in PARTIAL (byte-buffer refills / ICU observed only; the productions' own buffer "
